@@ -276,12 +276,14 @@ LATER = {
     "C01": "Also: From<String> of every metric type keeps its text; the same tag repeated on one call; the scripted sink logs "
            "flush() (a metric call must not flush).",
     "C03": "Also: sinks that answer Ok(n) for arbitrary n; an error handler that itself makes a failing quiet send on the same "
-           "client (family XN); two threads failing at once while the first handler invocation is still running (XT).",
+           "client (family XN); two threads failing at once while the first handler invocation is still running (XT); sink "
+           "errors whose payload is one of the crate's own MetricErrors.",
     "C06": "Also: the writer histories - fault histories included - driven through a StatsdClient over a user-written buffered "
            "sink (family CW: send_metric(&Counter::from(text)), StatsdClient::flush).",
     "C07": "Also: family CW (histories through StatsdClient) and family UR (the real UDP sinks over a socket connected to a "
            "closed port: ECONNREFUSED on every other send, then a listener appears) - every call must return.",
-    "C10": "Also: the usize an accepted emit returns is the metric's byte length (non-ASCII payloads).",
+    "C10": "Also: the usize an accepted emit returns is the metric's byte length (non-ASCII payloads); the bound of large "
+           "queues (capacities 70 000, 2^20, 2^20+3: worker parked, capacity + k emits, exactly capacity accepted).",
     "C11": "Also: unbroken runs of 17-70 panics; a panic soak of 28 000 panics over the life of one sink (own process).",
     "C13": "Also: statistics read in the middle of a history (op s: reading puts nothing on the wire), UDP sockets connected "
            "to a closed port (family UR); capacities above one IPv4 datagram (an emit that fits the configured capacity puts "
